@@ -30,6 +30,9 @@ def render_derive(inp):
         "no_attr": "",
         "two_attrs_ok": '#[token("x")]\n    #[regex("[a-c]+")]',
         "rx_nullable": '#[regex("a*")]',
+        "rx_nullable_prio": '#[regex("[0-9]*", priority = 3)]',
+        "rx_nullable_alt_prio": '#[regex("(ab)?c?", priority = 1)]',
+        "tok_empty_prio": '#[token("", priority = 2)]',
         "tok_empty": '#[token("")]',
         "rx_nullable_sub": '#[regex("(?&opt)")]',
         "rx_only_look": '#[regex("$")]',
@@ -70,6 +73,7 @@ def render_derive(inp):
         "dup_utf8": ["#[logos(utf8 = true, utf8 = true)]"],
         "unknown_logos": ["#[logos(foo = 1)]"], "logos_no_parens": ["#[logos]"], "bad_utf8_val": ["#[logos(utf8 = 3)]"],
         "skip_nullable": ['#[logos(skip "a*")]'], "skip_bad_lit": ["#[logos(skip 5)]"],
+        "skip_nullable_prio": ['#[logos(skip("[ \\t]*", priority = 5))]'],
         "skip_nonutf8": ['#[logos(skip b"\\xc3")]'], "skip_nonutf8_group": ['#[logos(skip(b"\\xff+", priority = 3))]'],
         "skip_greedy": ['#[logos(skip "#.*")]'], "skip_undef_sub": ['#[logos(skip "(?&nope)+")]'], "skip_lookstart": ['#[logos(skip "^#")]'],
         "sub_dup": ['#[logos(subpattern a = "a")]', '#[logos(subpattern a = "b")]'],
@@ -291,7 +295,7 @@ def render_attr_case(c, k, canonical=False):
         if c["t"] == "attr":
             named = sorted(named, key=lambda x: ["callback", "priority", "allow_greedy", "ignore"].index(x))
         else:
-            named = sorted(named, key=lambda x: ["extras", "error", "subA", "subB", "utf8", "lifetime", "type", "skip"].index(x))
+            named = sorted(named, key=lambda x: ["extras", "error", "subA", "subB", "utf8", "lifetime", "ltnone", "type", "skip"].index(x))
     if c["t"] == "attr":
         pat = {"token": "fn", "regex": "[a-z]+x", "skip": "[a-z]+x"}[c["kind"]]
         a = {"kind": c["kind"], "pat": {"s": pat}, "order": named}
@@ -319,11 +323,17 @@ def render_attr_case(c, k, canonical=False):
             d = corpus.mk("attr%d" % k, [a, corpus.tok("q")])
         return d
     text = {"skip": 'skip("[ ]+", priority = 3)', "extras": "extras = u32", "error": "error = MyErr", "subA": 'subpattern a = "[0-9]"',
-            "subB": 'subpattern b = "(?&a)+x"', "utf8": "utf8 = true", "lifetime": "lifetime = 'a", "type": "type T = &'a str"}
+            "subB": 'subpattern b = "(?&a)+x"', "utf8": "utf8 = true", "lifetime": "lifetime = 'a", "ltnone": "lifetime = none",
+            "type": "type T = &'static str" if "ltnone" in named else "type T = &'a str"}
     lead = "(?&b)y" if "subB" in named else "(?&a)+" if "subA" in named else "[a-z]+"
     d = corpus.mk("items%d" % k, [corpus.rx(lead), corpus.tok("qq")])
     d["logos"] = [", ".join(text[x] for x in named)]
-    if "type" in named or "lifetime" in named:
+    if "ltnone" in named:
+        # no lifetime parameter: the source lifetime is a fresh one
+        d["enum_generics"] = "<T>" if "type" in named else ""
+        if "type" in named:
+            d["vars"][0]["field"] = "T"
+    elif "type" in named or "lifetime" in named:
         # generic enum: the source lifetime and the concrete type of T come from the items
         d["enum_generics"] = "<'a, T>" if "type" in named else "<'a>"
         d["vars"][0]["field"] = "T" if "type" in named else "&'a str"
